@@ -1,4 +1,6 @@
 """C12 - the coupled aerostructural state is a consistent, path-independent fixed point."""
+import warnings
+
 import numpy as np
 
 from ..obs import Obs
@@ -68,6 +70,10 @@ def cases(tier, seed):
     n = 3 if tier == "quick" else 48
     for k in range(n):
         out.append(dict(kind="stiff", seed=int(rng.integers(1 << 30)), _cost=25))
+    # the coupled solver as shipped (AerostructPoint.setup), at its defaults and starved of iterations
+    n = 4 if tier == "quick" else 48
+    for k in range(n):
+        out.append(dict(kind="shipped", seed=int(rng.integers(1 << 30)), _cost=20))
     return out
 
 
@@ -369,6 +375,54 @@ def run_stiff(c, o):
     o.nontrivial = bool(f[0] > 1e-8)
 
 
+def run_shipped(c, o):
+    """What run_model hands back through the solver set-up the repository ships is a fixed point - or the run fails loudly."""
+    from openmdao.api import AnalysisError
+
+    rng = np.random.default_rng(c["seed"])
+    s = gen_surface(rng)
+    flow = gen_flow(rng)
+    base_case = dict(surfaces=[s], flow=flow)
+    ref = zoo.build_as(dict(base_case, solver=dict(nl="nlbgs", lin="direct", maxiter=400, atol=1e-10)))
+    zoo.run(ref)
+    st_ref = state(ref)
+    tags = [s["fem_model_type"]]
+    keys = ("wing.disp", "wing.loads", "wing.sec_forces", "wing.def_mesh")
+
+    def dev(p):
+        st = state(p)
+        return max(float(np.abs(st[k] - st_ref[k]).max() / max(np.abs(st_ref[k]).max(), 1e-300)) for k in keys if k in st_ref)
+
+    # (1) shipped defaults
+    p = zoo.build_as(dict(base_case, solver=dict(nl="shipped")))
+    try:
+        with warnings.catch_warnings():
+            warnings.simplefilter("ignore")
+            p.run_model()
+        o.le("shipped/default_state_is_fixed_point", dev(p), 1e-5, what="state returned by the shipped coupled solver vs the tightly converged state", tags=tags)
+    except AnalysisError:
+        o.count("shipped_default_raised")
+    # (2) iteration budgets too small to converge: a loud failure or a converged state, never a silent intermediate iterate
+    for maxiter, aitken in ((2, True), (3, False), (1, False)):
+        p = zoo.build_as(dict(base_case, solver=dict(nl="shipped", maxiter=maxiter, use_aitken=aitken)))
+        raised = False
+        try:
+            with warnings.catch_warnings():
+                warnings.simplefilter("ignore")
+                p.run_model()
+        except AnalysisError:
+            raised = True
+        o.count("shipped_starved_runs")
+        if raised:
+            o.count("shipped_starved_raised")
+            o.true("shipped/loud_or_converged", True)
+        else:
+            d = dev(p)
+            o.true("shipped/loud_or_converged", d <= 1e-5, "run_model returned normally after %d coupled iteration(s) (use_aitken=%s) with a state that is not the "
+                   "fixed point: relative deviation %.3e from the converged state" % (maxiter, aitken, d), tags=tags, deviation=d)
+    o.nontrivial = True
+
+
 def run_units(c, o):
     """the same physical inputs supplied through sources declared in other units must give the same coupled state"""
     rng = np.random.default_rng(c["seed"])
@@ -396,5 +450,5 @@ def run_units(c, o):
 
 def run_case(c):
     o = Obs()
-    {"fixed": run_fixed, "solvers": run_solvers, "multipoint": run_multipoint, "stiff": run_stiff, "units": run_units}[c["kind"]](c, o)
+    {"fixed": run_fixed, "solvers": run_solvers, "multipoint": run_multipoint, "stiff": run_stiff, "units": run_units, "shipped": run_shipped}[c["kind"]](c, o)
     return o
